@@ -40,12 +40,12 @@ META = {
     "C10": dict(
         text="One single-call harness per network-facing entry point with symbolic bytes, lengths, type, source and session state; the engine's built-in run-time failure assertions (bounds, nil, type assertion, nil map, explicit panic, deadlock) are the oracle.",
         design_ref="DESIGN.md §4 C10",
-        note="Input lengths bounded per entry (see evidence); cap == len buffers; Source != SelfID; library internals modelled.",
+        note='15 entry points; inputs bounded as stated per run in the evidence; asn1-havoc counterexamples cannot be replayed natively (not reported unless a re-encoded twin reproduces them); library internals (asn1, protobuf, TLS, curve arithmetic) are modelled.',
     ),
     "C12": dict(
         text="Bounded model checking of the real Scheme.Sign/KeyGen executed with goroutines, select, mutexes and context under the engine's symbolic scheduler; session outcome symbolic; handler tables read after each return and a follow-up call made.",
         design_ref="DESIGN.md §4 C12",
-        note="Scripted collaborators; context expiry at quiescence; 2-3 API calls per run.",
+        note='Scripted synchroniser / reliable-broadcast / back-end stubs with symbolic outcomes (incl. never completing, slow to abort); canonical schedule plus all choices at blocking points; members-only runs over all 16-bit ids.',
     ),
     "C14": dict(
         text="Bounded model checking with the thread schedule as a symbolic variable: the real msg.Box executed by the engine's scheduler, context switches before every acquire-type operation chosen by the solver "
@@ -72,7 +72,7 @@ META = {
     "C17": dict(
         text="Bounded model checking of framing (send -> readMsg round trip, length-limit refusal) and of concurrent senders with the real writer goroutines, an unreachable or breaking peer and the queue-full timeout, under all scheduler choices at blocking points.",
         design_ref="DESIGN.md §4 C17",
-        note="No sockets: connection is a byte-stream model; payload <= 3 (8) bytes; the accepting side of the 20 MB limit is only checked for tiny frames.",
+        note='Byte-stream model of the TLS connection (no sockets); payload <= 3 (8 thorough) bytes on the symbolic side; accept loop, late listener, held frames and stalled peers as scenarios with small symbolic choices.',
     ),
     "C01": dict(
         text="Bounded model checking of the real BLS DKG (n real TBLS instances with goroutines/condition variables) followed by the real restore/sign/aggregate/verify API for every signer set of size >= t, "
@@ -98,9 +98,9 @@ META = {
         note="Model curve; hash outputs are solver-chosen (so classes that rely on oracle unpredictability are 'generic'); n = 4, t = 3 (BLS), L = 1 (PS).",
     ),
     "C11": dict(
-        text="Bounded model checking of the real TBLS.KeyGen of 3 parties with a symbolic (peer, k) after which the peer is silent and context expiry at quiescence, and of the failure paths of the real Scheme.Sign.",
+        text="Bounded model checking of the real TBLS.KeyGen / TPS.KeyGen (a peer silent after its k-th message; a Byzantine peer that withholds; the context ending by cancellation or deadline, at quiescence and at any scheduling point), of the failure paths of the real Scheme.Sign / KeyGen (barriers and back ends that fail or never complete, stuck dispatcher, busy session) and of the real disc.Member.Synchronize; a loop that never ends is reported when the native replay hangs.",
         design_ref="DESIGN.md §4 C11",
-        note="One faulty peer; expiry only at quiescence; model curve.",
+        note='One faulty peer; n = 3; model curve; schedules bounded by the preemption bound (0-1) plus all choices at blocking points.',
     ),
     "C18": dict(
         text="Bounded model checking of the real secret-sharing code with symbolic polynomial coefficients: reconstruction, key and signature aggregation for all (n,t) up to 5 (6 thorough) and all subsets, subset coverage as a query over an arbitrary bitmask, detection of one off-polynomial key.",
@@ -108,9 +108,9 @@ META = {
         note="Identities over Q (valid in Z_r since denominators are products of differences of evaluation points < 2^16 < r).",
     ),
     "C20": dict(
-        text="Happens-before race monitor on the schedules the symbolic scheduler explores for KeyGen || OnMsg (bls) and HandleMessage || Send (msg.Box); every reported pair is confirmed by replaying the solver-found schedule natively (time-slot enforcement) under the Go race detector.",
+        text="Happens-before race monitor on the schedules the symbolic scheduler explores for bls and ps KeyGen || OnMsg, msg.Box HandleMessage || Send, threshold KeyGen || HandleMessage, 2-3 dispatchers on one session's real rbc.Receiver, disc Synchronize || HandleMessage; every reported pair is confirmed by replaying the solver-found schedule natively (time-slot enforcement) under the Go race detector.",
         design_ref="DESIGN.md §4 C20",
-        note="Only the harnessed scenarios; <= 2 preemptions; over-approximated happens-before edges (may miss, does not invent).",
+        note='Only the harnessed scenarios; <= 2 preemptions; over-approximated happens-before edges (may miss, does not invent); a race the native run does not confirm is not reported (two seeded races ended that way, DESIGN 8).',
     ),
     "C19": dict(
         text="Bounded model checking of the real ClassifyMsg/OnMsg of both tss-lib adapters against a routing oracle regenerated on every run from the tss-lib constructors: all pairs of message types, every (claimed key, transport sender) pair.",
